@@ -290,6 +290,21 @@ static void sc_scheduler() {
     }
 }
 
+// 6b. scheduler started from two threads at once (documented: "it is possible to start scheduler in multiple threads"):
+// the pinned code bound each call's stack_storage to one plain member (learned frame size) - concurrent first calls raced
+static void sc_scheduler_multi_start() {
+    for (int i = 0; i < ITER / 20 + 1; i++) {
+        scheduler sch;
+        start_gate g(2);
+        auto body = [&] {
+            g.arrive();
+            sch.start(sch.sleep_for(std::chrono::milliseconds(1)));
+        };
+        std::thread a(body), b(body);
+        a.join(); b.join();
+    }
+}
+
 // 8. publisher vs subscribers on other threads
 static void sc_publisher() {
     for (int i = 0; i < ITER / 10 + 1; i++) {
@@ -391,7 +406,7 @@ static void sc_shared() {
 int main(int argc, char **argv) {
     struct S { const char *name; void (*fn)(); };
     S all[] = {{"future_poll", sc_future_poll}, {"future_await", sc_future_await}, {"future_compete", sc_future_compete},
-               {"mutex", sc_mutex}, {"mutex_window", sc_mutex_window}, {"queue", sc_queue}, {"pool", sc_pool}, {"scheduler", sc_scheduler},
+               {"mutex", sc_mutex}, {"mutex_window", sc_mutex_window}, {"queue", sc_queue}, {"pool", sc_pool}, {"scheduler", sc_scheduler}, {"scheduler_multi_start", sc_scheduler_multi_start},
                {"publisher", sc_publisher}, {"storage", sc_storage}, {"generator", sc_generator}, {"signal", sc_signal},
                {"shared", sc_shared}};
     if (argc > 2) ITER = atoi(argv[2]);
